@@ -910,13 +910,13 @@ class PteraTransformer(NodeTransformer):
         """
         stmts = [node]
         for alias in node.names:
-            name = alias.asname or alias.name
-            if "." not in name:
-                name_node = ast.copy_location(
-                    ast.Name(id=name, context=ast.Load()),
-                    node,
-                )
-                stmts.extend(self.generate_interactions(name_node))
+            # "import a.b" sets the variable a
+            name = alias.asname or alias.name.split(".")[0]
+            name_node = ast.copy_location(
+                ast.Name(id=name, context=ast.Load()),
+                node,
+            )
+            stmts.extend(self.generate_interactions(name_node))
         return stmts
 
     def visit_Return(self, node):
